@@ -136,9 +136,12 @@ theorem needsArgs_raises (s : SendCfg) (r : RecvCfg) (env : Env) (e : ExcRec)
   exact ⟨dumpExc_ok s e hnf hb.2.2.2.2, rfl, rfl⟩
 
 /-- **C09 for every built-in exception class of this interpreter** (`Gen.Vinegar.builtinExcTable`, measured and regenerated on
-every run) whose `__new__` takes no arguments, with the receiver being this interpreter (`tableEnv`): no environment
-hypothesis is left — `Known` and `Writable` are discharged from the table (`known_of_mem`, `writable_of_recOf`); what remains
-(`RecOf`) says that `e` is a record of that class as Python presents one. -/
+every run) whose `__new__` takes no arguments, with the receiver being this interpreter (`tableEnv`): the environment
+hypotheses `Known` and `Writable` are discharged from the table (`known_of_mem`, `writable_of_recOf`).  What remains, `RecOf`,
+is ASSUMED of the record, not derived: that `dir()` lists `args` exactly once and no name twice, that nothing `dump` calls on
+the exception raises, and that a typed attribute shows a value of a kind its getter returns.  The generator measures these on
+sample instances of every class (`builtinDirSane`, `builtinGetattrClean`, observed kinds; `table_dir_and_getattr_sane`,
+`table_getters_within_setters`), which supports the assumption without proving it for every instance. -/
 theorem C09_partial_interpreter (row : Row) (hrow : row ∈ Gen.Vinegar.builtinExcTable) (hnn : row.2.1 = false)
     (s : SendCfg) (r : RecvCfg) (e : ExcRec) (he : RecOf row e) :
     ∃ p, dumpExc s e = .ok p ∧ ∃ o, requesterSees (loadExc r tableEnv p) = .raised o ∧ Faithful s e o := by
@@ -343,7 +346,8 @@ theorem unformattable_traceback_still_dumps (s : SendCfg) (e : ExcRec) (err : Er
 /-! ### every payload, however crafted -/
 
 /-- **no_import**: whatever the payload, the receiver attempts an import only if `import_custom_exceptions` is on
-(and then only of a module that is not loaded) -/
+(and then only of a module that is not loaded) — and runs no module-level code through the class lookup either (`EvOK` forbids
+`moduleCode` events; the lookup reads the module's own namespace: measured `gen_moduleLookupPure`) -/
 theorem no_import (r : RecvCfg) (env : Env) (payload m : Val)
     (h : Event.importAttempt m ∈ (loadExc r env payload).events) : r.importCustom = true ∧ env.loaded m = false :=
   loadExc_events r env payload _ h
@@ -357,7 +361,8 @@ theorem no_import_by_default (env : Env) (payload m : Val) :
 
 /-- **no_init**: whatever the payload and whatever the switches, no constructor runs.  The model emits a constructor event
 exactly when the generator's canary probe sees `__init__` run (`instantiationEvent`, `Gen.Vinegar.instantiatesByNew`), so this
-rests on that measured fact (`gen_instantiatesByNew`), on `loader_calls_allowed` (no call of a local name or expression in
+rests on that measured fact (`gen_instantiatesByNew`; canary subclasses of seven built-in bases, with and without arguments and
+attributes in the record), on `loader_calls_allowed` (no call of a local name or expression in
 `load`), and on the correspondence's `__init__` canaries -/
 theorem no_init (r : RecvCfg) (env : Env) (payload : Val) (c : ClsRef) :
     Event.init c ∉ (loadExc r env payload).events :=
@@ -456,12 +461,15 @@ theorem config_keys_wired :
           ("SystemExit", "propagate_SystemExit_locally")]
       ∧ Gen.Vinegar.classTypeIsType = true := by decide
 
-/-- the marker names the sender and the receiver must agree on do agree -/
+/-- facts tying independently obtained constants together: the attribute `dump` walks as the argument tuple is the one `load`
+assigns with `exc.args = ...` (a literal of the model); the own version string and the own major version (two live values of
+`rpyc.version`) agree, so a peer of the same version is not warned about.  That the text `dump` sends for a withheld version —
+and an absent version — does not trigger `load`'s warning is OBSERVED by the generator (a probe record carrying that text; the
+translation fails otherwise), which is why `loadVersionCompare` / `loadVersionDefault` are that text by construction -/
 theorem markers_agree :
-    Gen.Vinegar.argsName = argsAttr ∧ Gen.Vinegar.loadVersionAttr = Gen.Vinegar.versionAttr
-      ∧ Gen.Vinegar.versionDenied = Gen.Vinegar.loadVersionCompare
-      ∧ Gen.Vinegar.loadVersionDefault = Gen.Vinegar.loadVersionCompare
-      ∧ majorOf Gen.Vinegar.versionString = Gen.Vinegar.versionMajor := by decide
+    Gen.Vinegar.argsName = argsAttr ∧ majorOf Gen.Vinegar.versionString = Gen.Vinegar.versionMajor
+      ∧ (Gen.Vinegar.versionDenied == Gen.Vinegar.versionString) = false
+      ∧ (Gen.Vinegar.tracebackDenied == Gen.Vinegar.tracebackUnavailable) = false := by decide
 
 /-- out of the box neither importing nor instantiating custom exceptions is allowed -/
 theorem defaults_closed : defaultRecvCfg.importCustom = false ∧ defaultRecvCfg.instCustom = false := by decide
@@ -484,6 +492,25 @@ def sampleEnv : Env :=
     builtinAttr := fun _ => .excClass false, fmtName := fun _ _ => .error .notModelled, setattr := fun _ _ _ => .store }
 
 example : BuiltinRec sampleRec := ⟨rfl, rfl, by decide, by decide, rfl⟩
+/-- the sample is a record of the measured row of `KeyError`, so `C09_partial_interpreter` applies to it with `tableEnv` -/
+def keyErrorRow : Row := ([75, 101, 121, 69, 114, 114, 111, 114], false, [])
+example : keyErrorRow ∈ Gen.Vinegar.builtinExcTable := by decide
+example : RecOf keyErrorRow sampleRec := by
+  refine ⟨rfl, by decide, by decide, rfl, ?_⟩
+  intro d _ a acc _ hfa
+  simp [findAttr, keyErrorRow] at hfa
+example : ∃ p, dumpExc defaultSendCfg sampleRec = .ok p ∧ ∃ o,
+    requesterSees (loadExc defaultRecvCfg tableEnv p) = .raised o ∧ Faithful defaultSendCfg sampleRec o :=
+  C09_partial_interpreter keyErrorRow (by decide) rfl _ _ _ (by
+    refine ⟨rfl, by decide, by decide, rfl, ?_⟩
+    intro d _ a acc _ hfa
+    simp [findAttr, keyErrorRow] at hfa)
+/-- a typed setter in the table: `BlockingIOError.characters_written` stores ints only -/
+example : rowSetattr [66, 108, 111, 99, 107, 105, 110, 103, 73, 79, 69, 114, 114, 111, 114]
+      [99, 104, 97, 114, 97, 99, 116, 101, 114, 115, 95, 119, 114, 105, 116, 116, 101, 110] (.int 7) = .store
+    ∧ rowSetattr [66, 108, 111, 99, 107, 105, 110, 103, 73, 79, 69, 114, 114, 111, 114]
+      [99, 104, 97, 114, 97, 99, 116, 101, 114, 115, 95, 119, 114, 105, 116, 116, 101, 110] (.str [55]) = .raises .typeError := by
+  decide
 example : Known sampleEnv sampleRec.cls.name false := ⟨rfl, rfl, rfl⟩
 example : Writable sampleEnv (.real (.str sampleRec.cls.modname) sampleRec.cls.name) sampleRec :=
   ⟨fun _ _ => rfl, fun _ => rfl⟩
